@@ -262,10 +262,13 @@ def run(unit):
             # declared type): each must fail exactly when the two type sets share no base type
             import hpl.types as HT
 
-            params = {'not': ('BOOL', lambda n: A.HplUnaryOperator('not', n)), 'minus': ('NUMBER', lambda n: A.HplUnaryOperator('-', n)), 'field-of': ('MESSAGE', lambda n: A.HplFieldAccess(n, 'f')),
-                      'index-of': ('ARRAY', lambda n: A.HplArrayAccess(n, A.HplLiteral('0', 0))), 'abs': ('NUMBER', lambda n: A.HplFunctionCall('abs', (n,))),
-                      'index': ('NUMBER', lambda n: A.HplArrayAccess(A.HplFieldAccess(A.HplThisMessage(), 'arr'), n))}
-            for pname, (ptype, build) in params.items():
+            params = {'not': ('BOOL', lambda n: A.HplUnaryOperator('not', n), lambda b_: b_.operand), 'minus': ('NUMBER', lambda n: A.HplUnaryOperator('-', n), lambda b_: b_.operand),
+                      'field-of': ('MESSAGE', lambda n: A.HplFieldAccess(n, 'f'), lambda b_: b_.message), 'index-of': ('ARRAY', lambda n: A.HplArrayAccess(n, A.HplLiteral('0', 0)), lambda b_: b_.array),
+                      'abs': ('NUMBER', lambda n: A.HplFunctionCall('abs', (n,)), lambda b_: b_.arguments[0]), 'len': ('ARRAY', lambda n: A.HplFunctionCall('len', (n,)), lambda b_: b_.arguments[0]),
+                      'str': ('PRIMITIVE', lambda n: A.HplFunctionCall('str', (n,)), lambda b_: b_.arguments[0]), 'max': ('ARRAY', lambda n: A.HplFunctionCall('max', (n,)), lambda b_: b_.arguments[0]),
+                      'index': ('NUMBER', lambda n: A.HplArrayAccess(A.HplFieldAccess(A.HplThisMessage(), 'arr'), n), lambda b_: b_.index)}
+            PRIMS = frozenset(('BOOL', 'NUMBER', 'STRING'))
+            for pname, (ptype, build, child) in params.items():
                 for i in range(1, 128):
                     a = M[i]
                     if not a <= to_model(makers['field']().data_type):
@@ -279,7 +282,11 @@ def run(unit):
                         got = 'TypeError'
                     except Exception as e:  # noqa: BLE001
                         got = 'raised ' + type(e).__name__
-                    exp = 'ok' if ptype in a else 'TypeError'
+                    pset = PRIMS if ptype == 'PRIMITIVE' else frozenset((ptype,))
+                    exp = 'ok' if a & pset else 'TypeError'
+                    if got == 'ok' and exp == 'ok' and to_model(child(built).data_type) != a & pset:
+                        r.violation('an operand narrowed to a parameter type does not carry the intersection', {'op': 'expr-cast', 'node': pname, 'a': _w(a), 'b': ptype},
+                                    f'{pname} around a field typed {_w(a)}: the stored operand is typed {_w(to_model(child(built).data_type))}', size=len(a))
                     if got != exp:
                         r.violation('narrowing an operand to a parameter type does not follow the intersection', {'op': 'expr-cast', 'node': pname, 'a': _w(a), 'b': ptype}, f'{pname} around a field typed {_w(a)}: expected {exp}, got {got}', size=len(a))
             # two operands of = / != are narrowed to their common type set; three occurrences of one reference in a
@@ -319,6 +326,22 @@ def run(unit):
                         if got != exp:
                             r.violation('occurrences of one reference in a predicate are not required to share a base type', {'op': 'expr-cast', 'node': 'predicate', 'a': _w(a), 'b': _w(b) + _w(c)},
                                         f'fa used at {_w(a)}, {_w(b)}, {_w(c)}: expected {exp}, got {got}', size=len(a) + len(b) + len(c))
+            # one occurrence as a primitive, another as the domain of a quantifier (an array): never a common base type
+            for i1, a in prim:
+                for order in (0, 1):
+                    r.count('evaluations')
+                    try:
+                        o1 = A.HplFunctionCall('bool', (fld('fa', i1),))
+                        o2 = A.HplQuantifier('forall', 'i', A.HplFieldAccess(A.HplThisMessage(), 'fa'), A.HplBinaryOperator('>', A.HplVarReference('@i'), A.HplLiteral('0', 0)))
+                        A.HplPredicateExpression(A.HplBinaryOperator('or', o1, o2) if order == 0 else A.HplBinaryOperator('or', o2, o1))
+                        got = 'ok'
+                    except TypeError:
+                        got = 'TypeError'
+                    except Exception as e:  # noqa: BLE001
+                        got = 'raised ' + type(e).__name__
+                    if got != 'TypeError':
+                        r.violation('occurrences of one reference in a predicate are not required to share a base type', {'op': 'expr-cast', 'node': 'predicate', 'a': _w(a), 'b': ['ARRAY']},
+                                    f'fa used at {_w(a)} and as the domain of a quantifier: expected TypeError, got {got}', size=len(a))
             lits = {'NUMBER': ('1', 1), 'BOOL': ('True', True), 'STRING': ('"a"', '"a"')}
             uses = {'NUMBER': lambda v: A.HplBinaryOperator('>', v, A.HplLiteral('0', 0)), 'BOOL': lambda v: A.HplUnaryOperator('not', v), 'STRING': lambda v: A.HplBinaryOperator('=', v, A.HplLiteral('"b"', '"b"'))}
             tokens = {'NUMBER': HT.FLOAT64, 'BOOL': HT.BOOLEANS, 'STRING': HT.STRINGS}
@@ -505,7 +528,7 @@ def describe(tier):
         'rule': 'all 128 type sets; every ordered pair (cast, can_be, union); the seven can_be_* and derived members'
         + '; every triple for associativity / union of three; 24 x 24 pairs of named members, complements and unions each cast in a fresh interpreter (nothing materialised beforehand); long families (all non-empty subsets of every 2-4 base types, chains) for union'
         + '; union over 12 container kinds (list, tuple, iterator, generator, set, frozenset, dict, dict views, deque, reversed, map) x 128 sets x 4 family shapes'
-        + '; HplExpression.cast and can_be on field / variable / index nodes carrying every type set such a node can carry x all 128 targets; narrowing through 6 constructors, a bound variable and a schema check; the two operands of = / != over every pair of sets of primitives; three occurrences of one reference in a predicate over every triple'
+        + '; HplExpression.cast and can_be on field / variable / index nodes carrying every type set such a node can carry x all 128 targets; narrowing through 9 constructors (the stored operand must carry the intersection), a bound variable and a schema check; the two operands of = / != over every pair of sets of primitives; three occurrences of one reference in a predicate over every triple'
         + '. A state is one tuple of type sets; a transition one call of the real DataType API; non-trivial = every tuple (all are distinct).',
         'bounds': {'type_sets': 128, 'tuple_arity': 3},
         'exhaustive': True,
